@@ -12,6 +12,7 @@ hexb.pdf).  Induction over steps to whole runs is paper glue.
 """
 import json
 import os
+import re
 
 import hv
 import asmx
@@ -122,6 +123,26 @@ def native_stage(chk, exe, extracted=True):
             chk.add_violation("native-streams", p, "stream routing: %s" % r.get("why"), True)
             break
     chk.native.append({"stage": "stream-routing corner cases through the real HexSimIO (files checked on disk)", "cases": len(STREAM_CASES)})
+    # several instructions inside ONE call of the real run() (state the interpreter carries between iterations), including
+    # code that stores into the word it is executing
+    nm = 3000 if chk.tier == "quick" else 300000
+    rc, o, e, secs = hv.run([exe, "multisweep", str(chk.seed), str(nm)], timeout=3000)
+    try:
+        ms = json.loads(o)
+    except Exception:
+        if rc < 0 or rc >= 128:
+            p = chk.replay_path("native-multi-crash")
+            json.dump({"property": PID, "obligation": "native multi-step sweep", "what": "real hexsim crashed (rc=%d)" % rc, "reproduce": "%s multisweep %d %d" % (exe, chk.seed, nm)}, open(p, "w"), indent=1)
+            chk.add_violation("native-multistep", p, "real hexsim crashed (rc=%d) during runs of 2..6 defined, in-range instructions" % rc, True)
+            return
+        raise hv.Infra("multi-step sweep failed: " + (o + e)[-800:])
+    ms.update({"stage": "runs of 2..6 instructions inside one call of the real run() vs isa_step applied as often (incl. stores into the executing word)", "secs": round(secs, 1)})
+    chk.native.append(ms)
+    if ms.get("mismatches", 0):
+        f = ms["first"]
+        p = chk.replay_path("native-multistep")
+        json.dump({"property": PID, "obligation": "native multi-step sweep: one real run() of K instructions != isa_step^K", "multi": f, "how": "./check C02 --replay " + p}, open(p, "w"), indent=1)
+        chk.add_violation("native-multistep", p, "a run of %d instructions differs from the ISA: %s (pc=%d)" % (f["K"], f["why"], f["pc"]), True)
 
 
 def _stream_case(syscall, stream, byte=65, in_byte=120):
@@ -150,6 +171,44 @@ def replay_state(exe, st):
         return {"ok": None, "error": (o + e)[-500:]}
 
 
+def replay_multi(exe, f):
+    args = [exe, "multi", str(f["K"]), str(f["pc"]), str(f["areg"]), str(f["breg"]), str(f["oreg"]), str(len(f["input"]))] + [str(x) for x in f["input"]] + [str(x) for x in f["mem"]]
+    rc, o, e, _ = hv.run(args, timeout=60)
+    try:
+        return json.loads(o)
+    except Exception:
+        if rc < 0 or rc >= 128:
+            return {"ok": False, "why": "real simulator crashed (rc=%d) during this run" % rc}
+        return {"ok": None, "error": (o + e)[-500:]}
+
+
+def ksteps_cex(cex, K):
+    """counterexample of h_ksteps -> initial state + the memory words the run reads before writing them"""
+    g = lambda k: hv.parse_c_int(cex[k])
+    arr = {}
+    for k, v in cex.items():
+        mm = re.fullmatch(r"(cex_\w+?)((?:\[\d+l*\])+)", k)
+        if mm:
+            idx = tuple(int(x) for x in re.findall(r"\[(\d+)", mm.group(2)))
+            try:
+                arr[(mm.group(1),) + idx] = hv.parse_c_int(v)
+            except ValueError:
+                pass
+    n = g("cex_n")
+    planted, written, mem, inp = set(), set(), [], []
+    for i in range(n):
+        for q in range(5):
+            a, v = arr[("cex_ra", i, q)], arr[("cex_rv", i, q)]
+            if a not in planted and a not in written:
+                planted.add(a); mem += [a, v]
+        if arr.get(("cex_wr", i)):
+            written.add(arr[("cex_wa", i)])
+        b = arr.get(("cex_inb", i), -1)
+        if b >= 0:
+            inp.append(b)   # replay feeds the bytes in order; a byte is consumed only by a READ
+    return {"K": n, "pc": g("cex_pc"), "areg": g("cex_areg"), "breg": g("cex_breg"), "oreg": g("cex_oreg"), "input": inp, "mem": mem}
+
+
 def main(chk, replay_file):
     tier = chk.tier
     unit = build_unit(chk)
@@ -167,10 +226,14 @@ def main(chk, replay_file):
     if replay_file:
         exe = native(chk, unit)
         d = json.load(open(replay_file))
-        r = replay_state(exe, d["state"])
+        r = replay_multi(exe, d["multi"]) if "multi" in d else replay_state(exe, d["state"])
         print(json.dumps(r))
         return 0 if r.get("ok") else 1
     J = hv.Job
+    K = 2 if tier == "quick" else 3
+    hidden = chk.extra.get("hidden_state", [])
+    if hidden:
+        chk.assumptions.append("the interpreter carries state between iterations that the architecture does not have (%s): step.contract treats it as arbitrary" % ", ".join(hidden))
     jobs = [
         J("step.contract", unit, "h_step", functions=["run() loop body", "syscall", "HexSimIO::output", "HexSimIO::input"],
           note="loop-free; all 2^128 register states x all memory contents x all defined bytes"),
@@ -179,6 +242,12 @@ def main(chk, replay_file):
         J("io_input.contract", unit, "h_io_input", enforce="io_input", unwind=9, functions=["HexSimIO::input"], role="aux"),
         J("syscall.contract", unit, "h_syscall", enforce="syscall", replace=["io_output", "io_input"], unwind=40, object_bits=12, functions=["Processor::syscall"], role="aux",
           note="checked against the contracts of HexSimIO::output/input (calls replaced)"),
+        J("run.ksteps.bounded", unit, "h_ksteps", defines=["KSTEPS=%d" % K], unwind=max(K + 1, 9), kind="bounded", bounded=True, timeout=1800, mem_est=4,
+          functions=["run() entry + %d consecutive loop iterations" % K],
+          note="BOUNDED: %d consecutive iterations entered the way run() enters its loop; stands in for the induction only as far as state carried between iterations is concerned" % K),
+        J("run.ksteps.cover", unit, "h_ksteps", defines=["KSTEPS=%d" % K, "COVER_BY_ASSERT"], unwind=max(K + 1, 9), kind="cover", cover_by_assert=True, checks=[], timeout=1800, mem_est=4,
+          note="reachability: the first iteration stores into the word the second iteration fetches from"),
+        J("run.ksteps.canary", unit, "h_ksteps", defines=["KSTEPS=%d" % K, "CANARY"], unwind=max(K + 1, 9), kind="canary", checks=[], timeout=1800, mem_est=4),
         J("step.canary", unit, "h_step", defines=["CANARY"], kind="canary", checks=[]),
         J("run_loop.canary", unit, "h_run_loop", defines=["CANARY"], kind="canary", checks=[]),
         J("step.cover", unit, "h_cover", kind="cover", cover=True, checks=[]),
@@ -192,6 +261,23 @@ def main(chk, replay_file):
 
     for j in jobs:
         r = j.result
+        if j.kind == "bounded" and r["status"] == "failed":
+            # counterexamples of the K-step harness are concrete short runs: replay them through one call of the real run()
+            for f in r["failed"]:
+                name = j.name + ":" + f["name"]
+                try:
+                    mf = ksteps_cex(f.get("cex", {}), K)
+                except (KeyError, ValueError):
+                    mf = None
+                rr = replay_multi(exe, mf) if mf else {"ok": None}
+                p = chk.replay_path(f["name"] + ".ksteps")
+                if rr.get("ok") is False:
+                    json.dump({"property": PID, "obligation": name, "desc": f["desc"], "multi": mf, "real_code_result": rr, "how": "./check C02 --replay " + p}, open(p, "w"), indent=1)
+                    chk.add_violation(name, p, "%s; real hexsim, one run() of %d instructions: %s" % (f["desc"], mf["K"], rr.get("why")), True)
+                else:
+                    json.dump({"property": PID, "obligation": name, "desc": f["desc"], "verifier_counterexample": f.get("cex", {}), "replay_attempt": mf, "real_code_result": rr}, open(p, "w"), indent=1)
+                    chk.add_violation(name, p, f["desc"], False)
+            continue
         if j.kind != "proof" or r["status"] != "failed":
             continue
         if j.role == "aux":
@@ -219,6 +305,12 @@ def main(chk, replay_file):
                     chk.add_violation(name, p, "%s; real hexsim: %s" % (f["desc"], rr.get("why")), True)
                     replayed = True
                     continue
+            if hidden and j.name.startswith("step.contract"):
+                # the inductive step fails only for SOME value of the hidden loop-carried state, which may be unreachable:
+                # without an invariant for that state this is no verdict. The K-step job and the native multi-step sweep
+                # decide what they can reach; beyond that the property is undecided, not violated.
+                chk.undecided.append("%s %s -- fails for an arbitrary value of the hidden interpreter state (%s); no invariant for that state is available" % (name, f["desc"], ", ".join(hidden)))
+                continue
             # property-level obligation failed, nothing replays
             p = chk.replay_path(f["name"])
             json.dump({"property": PID, "obligation": name, "desc": f["desc"], "verifier_counterexample": cex, "replay_attempt": st}, open(p, "w"), indent=1)
